@@ -163,6 +163,14 @@ class Env:
             e = e.parent
         return None
 
+    def find(self, i):
+        e = self
+        while e is not None:
+            if i in e.vars:
+                return e
+            e = e.parent
+        return None
+
     def has(self, i):
         e = self
         while e is not None:
@@ -185,7 +193,7 @@ class Config:
     """per-check configuration of the interpreter"""
 
     def __init__(self, inline=(), pure=(), opaque=(), inline_all_fcppt=False, max_depth=40,
-                 loop_bound=2, hooks=None, pure_prefixes=(), inline_prefixes=(), record_prefixes=(), ref_writes=False, max_steps=20000):
+                 loop_bound=2, hooks=None, pure_prefixes=(), inline_prefixes=(), record_prefixes=(), ref_writes=False, max_steps=20000, lvalues=False):
         self.inline = set(inline)
         self.pure = set(pure)
         self.opaque = set(opaque)
@@ -200,6 +208,9 @@ class Config:
         # an assignment to a parameter of non-const lvalue reference type is an event ("refwrite", bound object, value)
         self.ref_writes = ref_writes
         self.max_steps = max_steps
+        # opt-in storage model: assignments through member / element / accessor expressions update the variable they reach
+        # (locations are access paths rooted at variables; values stay immutable terms), reference parameters bind locations
+        self.lvalues = lvalues
 
 
 class Interp:
@@ -211,6 +222,7 @@ class Interp:
         self.assign = None
         self.depth = 0
         self.steps = 0
+        self.want_loc = []
 
     # -- driving ---------------------------------------------------------------------------
     def paths(self, fn, args=None, this=None, limit=400):
@@ -316,7 +328,7 @@ class Interp:
         return ("ev", len(self.path.events), label or name.split("::")[-1])
 
     # -- functions -------------------------------------------------------------------------
-    def call_function(self, fn, args, this):
+    def call_function(self, fn, args, this, arglocs=None, thisloc=None):
         self.depth += 1
         if self.depth > self.cfg.max_depth:
             raise Unsupported("inlining depth exceeded at " + fn["qn"])
@@ -328,8 +340,12 @@ class Interp:
         if len(args) != len(params):
             # parameter packs are expanded in instantiations, so counts must agree
             raise Unsupported("argument count mismatch calling " + fn["qn"])
-        for p, a in zip(params, args):
+        for i_, (p, a) in enumerate(zip(params, args)):
             env.vars[p["id"]] = a
+            if arglocs is not None and i_ < len(arglocs) and arglocs[i_] is not None:
+                env.vars[p["id"]] = ("@ref", arglocs[i_])
+        if thisloc is not None:
+            this = ("@ref", thisloc)
         try:
             if fn.get("kind") == "ctor":
                 raise Unsupported("constructor bodies are not interpreted: " + fn["qn"])
@@ -412,6 +428,11 @@ class Interp:
                 self.exec_stmt(unit, s.get("else"), inner, this)
             return
         if k == "return":
+            if self.want_loc and self.want_loc[-1] == self.depth and s.get("e") is not None:
+                l = self.lv(unit, s.get("e"), env, this)
+                if l is None:
+                    raise Unsupported("a reference result that is not an access path: %s" % unit.loc(s.get("loc")))
+                raise _Return(("@loc", l))
             v = self.eval(unit, s.get("e"), env, this) if s.get("e") is not None else ("k", None)
             raise _Return(v)
         if k == "while":
@@ -603,6 +624,8 @@ class Interp:
                     if "c" in n:
                         return ("k", n["c"])
                     return ("sym", n.get("name"))
+                if isinstance(v, tuple) and v and v[0] == "@ref":
+                    return self.load(v[1])
                 return v
             if dk == "enumerator":
                 return ("k", n.get("qn"))
@@ -615,6 +638,8 @@ class Interp:
                                "expr:CXXNoexceptExpr", "expr:RequiresExpr", "expr:ConceptSpecializationExpr"):
             return ("k", n["c"])
         if k == "this":
+            if isinstance(this, tuple) and this and this[0] == "@ref":
+                return self.load(this[1])
             return this if this is not None else ("sym", "this")
         if k == "member":
             b = self.eval(unit, n.get("base"), env, this)
@@ -756,7 +781,135 @@ class Interp:
             return ("fld", b[1], name)
         return ("fld", b, name)
 
+    # -- locations (cfg.lvalues) -----------------------------------------------------------
+    def lv(self, unit, n, env, this):
+        """access path denoted by an lvalue expression, or None"""
+        n = T.unwrap(unit, n)
+        if n is None:
+            return None
+        k = n.get("k")
+        if k == "ref" and n.get("dk") in ("local", "param", "static_local"):
+            e = env.find(n["id"])
+            if e is None:
+                return None
+            cur = e.vars[n["id"]]
+            if isinstance(cur, tuple) and cur and cur[0] == "@ref":
+                return cur[1]
+            return ("@var", e, n["id"])
+        if k == "this":
+            if isinstance(this, tuple) and this and this[0] == "@ref":
+                return this[1]
+            return None
+        if k == "unop" and n.get("op") == "*":
+            return self.lv(unit, n.get("e"), env, this)
+        if k == "member":
+            b = self.lv(unit, n.get("base"), env, this)
+            return ("@fld", b, n.get("name")) if b is not None else None
+        if k == "subscript":
+            b = self.lv(unit, n.get("base"), env, this)
+            i = self.eval(unit, n.get("idx"), env, this)
+            if b is None or not is_const(i):
+                return None
+            return ("@idx", b, int(str(i[1]).rstrip("uUlL")))
+        if k in ("icast", "cast"):
+            return self.lv(unit, n.get("e"), env, this)
+        if k == "call" and n.get("callee") is not None:
+            d = unit.decls.get(n["callee"])
+            if d is None:
+                return None
+            qn = F.strip_targs(d["qn"])
+            if qn in TRANSPARENT or qn in ("fcppt::cast::static_downcast",):
+                tgt = n.get("recv") if n.get("recv") is not None and not n.get("args") else (n.get("args") or [None])[0]
+                return self.lv(unit, tgt, env, this)
+            if qn in ("fcppt::array::object::get_unsafe", "fcppt::array::object::operator[]", "std::array::operator[]") and n.get("recv") is not None:
+                b = self.lv(unit, n["recv"], env, this)
+                i = self.eval(unit, n["args"][0], env, this) if n.get("args") else None
+                if b is None or i is None or not is_const(i):
+                    return None
+                return ("@idx", b, int(str(i[1]).rstrip("uUlL")))
+            if qn in ("std::get", "fcppt::tuple::get") and len(n.get("args", [])) == 1:
+                b = self.lv(unit, n["args"][0], env, this)
+                ta = d.get("targs") or []
+                if b is None or not ta or not str(ta[0]).rstrip("ULul").isdigit():
+                    return None
+                return ("@idx", b, int(str(ta[0]).rstrip("ULul")))
+            if (qn in self.cfg.inline or any(qn.startswith(p) for p in self.cfg.inline_prefixes)) and qn not in self.cfg.opaque:
+                rt = (unit.ty(d.get("ret")) or "").strip()
+                if not rt.endswith("&") or rt.endswith("&&"):
+                    return None     # a prvalue result is not a location
+                fn = self.db.resolve(unit, d["id"])
+                if fn is None or fn.get("body") is None or fn.get("kind") == "ctor":
+                    return None
+                args = [self.eval(unit, a, env, this) for a in n.get("args", [])]
+                arglocs = self.arg_locs(unit, n, d, env, this)
+                thisloc = self.lv(unit, n["recv"], env, this) if n.get("recv") is not None else None
+                recv = self.eval(unit, n["recv"], env, this) if n.get("recv") is not None else None
+                self.want_loc.append(self.depth + 1)
+                try:
+                    r = self.call_function(fn, args, recv, arglocs=arglocs, thisloc=thisloc)
+                finally:
+                    self.want_loc.pop()
+                if isinstance(r, tuple) and r and r[0] == "@loc":
+                    return r[1]
+                return None
+        return None
+
+    def arg_locs(self, unit, n, d, env, this):
+        prefs = d.get("prefs") or []
+        out = []
+        for i, a in enumerate(n.get("args", [])):
+            out.append(self.lv(unit, a, env, this) if i < len(prefs) and prefs[i] == "lref" else None)
+        return out
+
+    def load(self, l):
+        t = l[0]
+        if t == "@var":
+            v = l[1].vars[l[2]]
+            if isinstance(v, tuple) and v and v[0] == "@ref":
+                return self.load(v[1])
+            return v
+        if t == "@fld":
+            b = self.load(l[1])
+            return self.field(b, l[2])
+        if t == "@idx":
+            b = self.load(l[1])
+            el = _elems(b)
+            if el is None or not 0 <= l[2] < len(el):
+                return ("elem", b, l[2])
+            return el[l[2]]
+        raise Unsupported("load of %r" % (t,))
+
+    def store_loc(self, l, v):
+        t = l[0]
+        if t == "@var":
+            cur = l[1].vars[l[2]]
+            if isinstance(cur, tuple) and cur and cur[0] == "@ref":
+                return self.store_loc(cur[1], v)
+            l[1].vars[l[2]] = v
+            return
+        if t == "@fld":
+            b = self.load(l[1])
+            if isinstance(b, tuple) and b and b[0] == "rec" and l[2] in dict(b[2]):
+                nb = ("rec", b[1], tuple((f, v if f == l[2] else x) for f, x in b[2]))
+            elif isinstance(b, tuple) and b and b[0] == "tuple" and l[2] in ("first", "second") and len(b[1]) == 2:
+                nb = ("tuple", (v, b[1][1]) if l[2] == "first" else (b[1][0], v))
+            else:
+                raise Unsupported("store into field %s of %s" % (l[2], show(b)))
+            return self.store_loc(l[1], nb)
+        if t == "@idx":
+            b = self.load(l[1])
+            nb = _with_elem(b, l[2], v)
+            if nb is None:
+                raise Unsupported("store into element %d of %s" % (l[2], show(b)))
+            return self.store_loc(l[1], nb)
+        raise Unsupported("store to %r" % (t,))
+
     def store(self, unit, lhs, v, env, this):
+        if self.cfg.lvalues:
+            loc_ = self.lv(unit, lhs, env, this)
+            if loc_ is not None and loc_[0] != "@var":
+                self.store_loc(loc_, v)
+                return
         l = T.unwrap(unit, lhs)
         if l is not None and l.get("k") == "ref" and l.get("dk") in ("local", "param", "static_local"):
             if self.cfg.ref_writes and l.get("dk") == "param" and env.has(("ref", l["id"])):
@@ -905,6 +1058,10 @@ class Interp:
             fn = self.db.resolve(unit, d["id"])
             if fn is None or fn.get("body") is None:
                 raise Unsupported("no body available to inline %s (called at %s)" % (qn, loc))
+            if self.cfg.lvalues:
+                arglocs = self.arg_locs(unit, n, d, env, this)
+                thisloc = self.lv(unit, n["recv"], env, this) if n.get("recv") is not None and not d.get("const") else None
+                return self.call_function(fn, args, recv, arglocs=arglocs, thisloc=thisloc)
             return self.call_function(fn, args, recv)
         key = qn + ("<" + ",".join(d.get("targs", [])) + ">" if d.get("targs") else "")
         return self.event(key, ([recv] if recv is not None else []) + args, loc, label=short)
@@ -1080,6 +1237,47 @@ class Interp:
             if b and isinstance(a, tuple) and a[0] == "app" and a[1].startswith("holds<") and a[2] == (v,) and a[1] != "holds<%s>" % ty:
                 return FALSE
         return ("app", "holds<%s>" % ty, (v,))
+
+
+def _elems(v):
+    """element list of an array-like value: descends single-field records and std::array aggregates"""
+    for _ in range(8):
+        if isinstance(v, tuple) and v and v[0] == "rec" and len(v[2]) == 1:
+            v = v[2][0][1]
+            continue
+        if isinstance(v, tuple) and v and v[0] == "tuple":
+            return list(v[1])
+        el = list_elems(v)
+        if el is not None:
+            return list(el)
+        return None
+    return None
+
+
+def _with_elem(v, i, x):
+    if isinstance(v, tuple) and v and v[0] == "rec" and len(v[2]) == 1:
+        inner = _with_elem(v[2][0][1], i, x)
+        return None if inner is None else ("rec", v[1], ((v[2][0][0], inner),))
+    if isinstance(v, tuple) and v and v[0] == "tuple":
+        el = list(v[1])
+        if 0 <= i < len(el):
+            el[i] = x
+            return ("tuple", tuple(el))
+        return None
+    if isinstance(v, tuple) and v and v[0] == "list":
+        el = list(v[1])
+        if 0 <= i < len(el):
+            el[i] = x
+            return ("list", tuple(el))
+        return None
+    if isinstance(v, tuple) and v and v[0] == "new" and v[1] in LIST_CLASSES:
+        el = list_elems(v)
+        if el is not None and 0 <= i < len(el):
+            el = list(el)
+            el[i] = x
+            return ("new", v[1], v[2], (("tuple", tuple(el)),))
+        return None
+    return None
 
 
 def _is_mut_ref(t):
